@@ -265,7 +265,7 @@ def run(ctx):
 
 
 META = {
-    "technique": "table agreement between the writer's and the reader's switch statements (case labels and appended literals extracted from the AST); source-to-sink flow of user strings inside the dumper; typedef/class facts",
+    "technique": "table agreement between the writer's and the reader's switch statements (case labels and appended literals extracted from the AST); coverage argument for the escaper loop in either of two recognised idioms (per character / bulk copy with find_first_of: stop set, resume index, run and tail); source-to-sink flow of user strings inside the dumper; typedef/class facts",
     "level": "Static decision of the string/key clauses of the round trip: for every escape the writer emits the reader's table decodes it to the original byte, every byte the reader treats specially is "
              "escaped, every string value and object key reaches the output only through the escaper, objects iterate in key order and the hash depends on the dump only. These hold for all strings, which "
              "tests sample sparsely (no test uses a key with a quote).",
